@@ -259,6 +259,9 @@ func c19(c *Ctx) {
 				hasX = true
 			}
 		}
+		if irs[0] == "mutated" {
+			c.fail("C19/mutates-arguments/"+hc.fn, "the helper wrote into one of its arguments (a slice's backing array or a map): equal arguments no longer give equal results for the caller", map[string]string{"request": req})
+		}
 		if irs[0] == "panic" {
 			c.fail("C19/panic/"+hc.fn, "helper panics", map[string]string{"request": req})
 		} else if hc.obj == nil && hasX && irs[0] != "err" {
